@@ -719,7 +719,9 @@ func c05DeferKeepsError(fn *ssa.Function) string {
 	return ""
 }
 
-// c05ReturnsMaybeNilErr lists the return atoms of fn's error result that may be nil.
+// c05MaybeNilAtoms lists the return atoms of fn's error result that may be
+// nil: not known non-nil by construction, and not returned on the non-nil side
+// of their own nil test (`if err != nil { return err }`).
 func c05MaybeNilAtoms(fn *ssa.Function) []RetAtom {
 	idx := ErrResultIndex(fn.Signature)
 	if idx < 0 {
@@ -727,9 +729,18 @@ func c05MaybeNilAtoms(fn *ssa.Function) []RetAtom {
 	}
 	var out []RetAtom
 	for _, a := range RetAtoms(fn, idx) {
-		if ErrNilStatus(a.Val, 0) != NonNil {
-			out = append(out, a)
+		if ErrNilStatus(a.Val, 0) == NonNil {
+			continue
 		}
+		if _, isConst := a.Val.(*ssa.Const); !isConst {
+			if _, isZero := a.Val.(zeroMarker); !isZero {
+				_, nonNilE, _ := NilTests(fn, Aliases(a.Val))
+				if len(nonNilE) > 0 && c05AtomMustPass(a, newCut().Edges(nonNilE...)) {
+					continue
+				}
+			}
+		}
+		out = append(out, a)
 	}
 	return out
 }
